@@ -1,9 +1,9 @@
 SPECIFICATION Spec
 CONSTANTS
-  MaxToks = 3
+  MaxToks = 4
   Level = 1
   LevelNext = 1
-  Glue = TRUE
+  Glue = FALSE
   Dump = TRUE
 INVARIANT AllValid
 INVARIANT Compositional
